@@ -46,10 +46,37 @@ def canon_names(names):
     return ["<cte-hash-name>" if isinstance(n, str) and HASHNAME.match(n) else n for n in names]
 
 
+FILES_DIR: list = []
+
+
+def make_files():
+    """the csv fixtures, in one directory per check run (the path is part of the SQL text that is compared across processes)"""
+    import importlib.util
+    import tempfile
+    spec = importlib.util.spec_from_file_location("c18_worker_files", WORKER)
+    mod = importlib.util.module_from_spec(spec)
+    spec.loader.exec_module(mod)
+    d = tempfile.mkdtemp(prefix="c18_files_", dir="/var/tmp")
+    for k, v in mod.FILES.items():
+        with open(os.path.join(d, k + ".csv"), "w") as f:
+            f.write(v)
+    FILES_DIR[:] = [d]
+    return d
+
+
+def drop_files():
+    import shutil
+    for d in FILES_DIR:
+        shutil.rmtree(d, True)
+    FILES_DIR[:] = []
+
+
 def run_worker(trace, dump=False, hashseed="0", timeout=120):
     env = {k: v for k, v in os.environ.items() if k not in ("PYTHONPATH", "PYTHONHASHSEED")}
     env["PYTHONPATH"] = core.REPO
     env["PYTHONHASHSEED"] = str(hashseed)
+    if FILES_DIR:
+        env["C18_FILES"] = FILES_DIR[0]
     p = subprocess.run([core.PY, WORKER], input=json.dumps({"trace": trace, "dump": dump}), capture_output=True, text=True,
                        env=env, timeout=timeout)
     if p.returncode != 0:
@@ -209,7 +236,56 @@ def corpus():
         h9 += [{"o": H, "op": "view", "src": src, "name": "v"}, {"o": H, "op": "sql", "dst": "h2", "view": "v", "cols": None},
                {"o": H, "op": "collect", "src": "h2"}]
         cases.append(("view-name-first-registered-" + nm, p9, h9, ("before",)))
+    # 10 -- other work DERIVES frames from P's join / filter / alias frames (sharing source data); P then uses its frames
+    p10 = [{"o": P, "op": "create", "dst": "p0", "tbl": "T1"}, {"o": P, "op": "create", "dst": "p1", "tbl": "T2"},
+           {"o": P, "op": "join", "dst": "p2", "l": "p0", "r": "p1", "on": ["names", ["a"]]},
+           {"o": P, "op": "where", "dst": "p3", "src": "p0", "col": C(None, "b"), "k": 2},
+           {"o": P, "op": "alias", "dst": "p4", "src": "p0", "name": "x"},
+           {"o": P, "op": "collect", "src": "p2"}, {"o": P, "op": "collect", "src": "p3"}, {"o": P, "op": "collect", "src": "p4"},
+           {"o": P, "op": "sqltext", "src": "p2"}]
+    h10 = [{"o": H, "op": "where", "dst": "h0", "src": "p2", "col": C(None, "c"), "k": 10}, {"o": H, "op": "collect", "src": "h0"},
+           {"o": H, "op": "where", "dst": "h1", "src": "p3", "col": C(None, "a"), "k": 1}, {"o": H, "op": "count", "src": "h1"},
+           {"o": H, "op": "where", "dst": "h2", "src": "p4", "col": C(["name", "x"], "a"), "k": 1}, {"o": H, "op": "collect", "src": "h2"},
+           {"o": H, "op": "select", "dst": "h3", "src": "p2", "cols": [C(None, "c")]}, {"o": H, "op": "collect", "src": "h3"}]
+    cases.append(("history-derives-from-P-frames", p10, h10, ("after",)))
     return cases
+
+
+def ext_corpus(rnd):
+    """situations over the wider alphabet (outside the Coq model): compared between runs only; all are in the property's domain"""
+    P, H = "P", "H"
+    out = []
+    # E1 -- earlier reads with chained reader options / format, then an unrelated plain read
+    h = [{"o": H, "op": "csv", "dst": "h0", "file": "F3", "chain": [["option", "header", False]]}, {"o": H, "op": "collect", "src": "h0"},
+         {"o": H, "op": "csv", "dst": "h1", "file": "F1", "chain": [["options", {"skip": 1, "all_varchar": True}]]}, {"o": H, "op": "collect", "src": "h1"},
+         {"o": H, "op": "csv", "dst": "h2", "file": "F3", "chain": [["format", "csv"]], "kw": "load"}, {"o": H, "op": "count", "src": "h2"}]
+    p = [{"o": P, "op": "csv", "dst": "p0", "file": "F1", "chain": []}, {"o": P, "op": "collect", "src": "p0"},
+         {"o": P, "op": "columns", "src": "p0"},
+         {"o": P, "op": "csv", "dst": "p1", "file": "F3", "chain": [], "kw": {"header": True}}, {"o": P, "op": "collect", "src": "p1"},
+         {"o": P, "op": "sqltext", "src": "p0"}]
+    out.append(("reader-options-before-unrelated-read", p, h, "before"))
+    # E2 -- a view registered from an aliased frame, read through session.table by other work that filters it
+    p = [{"o": P, "op": "create", "dst": "p0", "tbl": "T1"}, {"o": P, "op": "alias", "dst": "p1", "src": "p0", "name": "x"},
+         {"o": P, "op": "view", "src": "p1", "name": "tv"},
+         {"o": P, "op": "table", "dst": "p2", "view": "tv"}, {"o": P, "op": "collect", "src": "p2"},
+         {"o": P, "op": "sql", "dst": "p3", "view": "tv", "cols": None}, {"o": P, "op": "collect", "src": "p3"},
+         {"o": P, "op": "collect", "src": "p1"}]
+    h = [{"o": H, "op": "table", "dst": "h0", "view": "tv"}, {"o": H, "op": "where", "dst": "h1", "src": "h0", "col": C(None, "a"), "k": 1},
+         {"o": H, "op": "collect", "src": "h1"},
+         {"o": H, "op": "api", "dst": "h2", "src": "h0", "name": "orderBy", "args": {"cols": ["b"]}}, {"o": H, "op": "collect", "src": "h2"}]
+    out.append(("view-read-through-session.table-by-other-work", p[:3] + h + p[3:], None, "given"))
+    out[-1] = ("view-read-through-session.table-by-other-work", p, p[:3] + h + p[3:], "given")
+    # E3 -- other work derives frames with the wider API from P's join / filter / alias / union frames
+    p = [{"o": P, "op": "create", "dst": "p0", "tbl": "T1"}, {"o": P, "op": "create", "dst": "p1", "tbl": "T2"},
+         {"o": P, "op": "join", "dst": "p2", "l": "p0", "r": "p1", "on": ["names", ["a"]]},
+         {"o": P, "op": "where", "dst": "p3", "src": "p0", "col": C(None, "b"), "k": 2},
+         {"o": P, "op": "union", "dst": "p4", "l": "p0", "r": "p0"},
+         {"o": P, "op": "collect", "src": "p2"}, {"o": P, "op": "collect", "src": "p3"}, {"o": P, "op": "collect", "src": "p4"},
+         {"o": P, "op": "sqltext", "src": "p2"}]
+    h = G.touch_steps(rnd, "p2", ["a", "b", "c"], True, 60) + G.touch_steps(rnd, "p3", ["a", "b"], True, 70) \
+        + G.touch_steps(rnd, "p4", ["a", "b"], True, 80)
+    out.append(("wide-api-derivations-from-P-frames", p, p[:5] + h + p[5:], "given"))
+    return out
 
 
 def tables_cases():
@@ -229,6 +305,14 @@ def tables_cases():
 # ---------------------------------------------------------------------------------------------------------------
 
 def run(ctx: core.Ctx):
+    make_files()
+    try:
+        _run(ctx)
+    finally:
+        drop_files()
+
+
+def _run(ctx: core.Ctx):
     try:
         text, facts = c18_facts.generate(core.REPO)
         ctx.gen("C18Facts", text, facts)
@@ -269,6 +353,9 @@ def run(ctx: core.Ctx):
             else:
                 tr = G.interleave(rnd, p, h, "mix")
             cases.append({"kind": "corpus:" + name, "mode": mode, "p": p, "trace": tr})
+    for name, p, h, mode in ext_corpus(rnd):
+        tr = (h + p) if mode == "before" else h
+        cases.append({"kind": "ext:" + name, "mode": "ext", "p": p, "trace": tr, "ext": True})
     hist_len, hist_ops = {}, {}
     n_mirror = 0
     for i in range(n_hist):
@@ -284,7 +371,17 @@ def run(ctx: core.Ctx):
         h, _ = G.gen_program(rnd, rnd.randint(1, 7), "H", info=dict(info) if mode != "before" else {},
                              allow_peer=(mode != "before"), actions=rnd.choice([0, 1]))
         tr = G.interleave(rnd, p, h, mode)
+        # other work that derives (and executes) new frames from the frame P is about to act on
+        acted = [st["src"] for st in p if st["op"] == "collect"]
+        if acted and rnd.random() < 0.6 and info.get(acted[-1], {}).get("cols"):
+            tr = G.insert_before_actions(tr, acted[-1], G.touch_steps(rnd, acted[-1], info[acted[-1]]["cols"], False, 90))
         cases.append({"kind": "random", "mode": mode, "p": p, "trace": tr})
+    n_ext_solo = 10 if quick else 120
+    ext_kinds = {}
+    for i in range(n_ext_solo):
+        p, k = G.gen_ext_program(rnd)
+        ext_kinds[k] = ext_kinds.get(k, 0) + 1
+        cases.append({"kind": "ext-solo:" + k, "mode": "solo", "p": p, "trace": p, "ext": True})
     for i in range(n_solo):
         p, _ = G.gen_program(rnd, rnd.randint(3, 10), "P", actions=1)
         cases.append({"kind": "solo", "mode": "solo", "p": p, "trace": p})
@@ -297,7 +394,7 @@ def run(ctx: core.Ctx):
     # ---- run the implementation ---------------------------------------------------------------------------
     jobs = []
     for ci, c in enumerate(cases):
-        jobs.append((ci, "hist", c["trace"], True, "0"))
+        jobs.append((ci, "hist", c["trace"], not c.get("ext"), "0"))
         if c["mode"] != "solo":
             jobs.append((ci, "alone0", c["p"], False, "0"))
             jobs.append((ci, "alone1", c["p"], False, str(1 + (ctx.seed + ci) % 4000000)))
@@ -318,8 +415,17 @@ def run(ctx: core.Ctx):
     ctx.log(f"{len(cases)} cases, {n_proc} worker processes")
 
     # ---- the model on the same traces (Coq) -----------------------------------------------------------------
-    items = [M.trace_coq(modelled(c["trace"])) for c in cases]
-    mres = ctx.cases("c18", HDR, items, per_file=12, result_ty="str", fn="check")
+    mod_idx = [i for i, c in enumerate(cases) if not c.get("ext")]
+    items = [M.trace_coq(modelled(cases[i]["trace"])) for i in mod_idx]
+    mres_m = ctx.cases("c18", HDR, items, per_file=12, result_ty="str", fn="check")
+    mres = [None] * len(cases)
+    for i, r_ in zip(mod_idx, mres_m):
+        mres[i] = r_
+    for i, c in enumerate(cases):
+        if c.get("ext"):
+            # outside the model's alphabet: no step tie; the property's verdict on the syntactic domain stands in
+            ind = G.py_independent(c["trace"])
+            mres[i] = "$" + ("same,independent,scoped" if ind else "unknown,dependent,unscoped")
 
     n_steps_cmp = n_tie_bad = n_engine_err = 0
     n_hist_cmp = n_same = n_diff_known = n_legit_dep = 0
@@ -336,7 +442,7 @@ def run(ctx: core.Ctx):
         body, verdict = mr.rsplit("$", 1)
         same_pred, indep, scoped = verdict.split(",")
         msteps = body.split("@") if body else []
-        tr_m = modelled(c["trace"])
+        tr_m = modelled(c["trace"]) if not c.get("ext") else []
         impl_steps = [ob for st, ob in zip(c["trace"], hist["steps"]) if st["op"] not in ("tables", "union")]
         # (a) model tie, step by step
         outside = False
@@ -379,9 +485,11 @@ def run(ctx: core.Ctx):
                     "property": "rows/names/errors of P's actions must be the same with and without the other work"}
             if impl_same:
                 n_same += 1
-                if same_pred != "same" and not outside:
+                if same_pred == "differs" and not outside:
                     ctx.broken("T3:impl-vs-model", "the model predicts that the history changes P's observations but the "
                                "implementation's are unchanged", data=[desc])
+            elif same_pred == "unknown":
+                n_legit_dep += 1
             elif scoped != "scoped":
                 # P reads a view the other work registered last: a dependency PySpark has as well -- only tied to the model
                 n_legit_dep += 1
@@ -397,7 +505,7 @@ def run(ctx: core.Ctx):
                           ("model-agrees" if same_pred == "differs" else "model-disagrees")
                 ctx.deviation(sig, "P's observations differ between 'interleaved with other work in the same session' and "
                               "'alone in a fresh process'", desc)
-                if same_pred == "same" and not outside:
+                if same_pred == "same" and not outside and not c.get("ext"):
                     ctx.broken("T3:impl-vs-model", "history changes P's observations where the model predicts none", data=[desc])
             if indep == "independent" and same_pred != "same":
                 ctx.broken("theorem-vs-evaluation", "an independent trace on which the model itself evaluates to 'differs'", data=[desc])
@@ -480,7 +588,8 @@ def run(ctx: core.Ctx):
         "catalog_listing_cases": n_tab, "catalog_listing_changed": n_tab_leak,
         "worker_processes": n_proc,
         "histogram_trace_length": dict(sorted(hist_len.items())), "histogram_owner_op": dict(sorted(hist_ops.items())),
-        "histogram_kind": {k: sum(1 for c in cases if c["kind"].split(":")[0] == k) for k in ("corpus", "random", "random-mirror", "solo")},
+        "histogram_kind": {k: sum(1 for c in cases if c["kind"].split(":")[0] == k) for k in ("corpus", "ext", "random", "random-mirror", "ext-solo", "solo")},
+        "histogram_ext_solo_kind": ext_kinds,
     })
     ctx.assumptions += [
         "uuid4 freshness: random ids / uuid literals are pairwise distinct and never equal a user-written name (oracle hypothesis "
